@@ -229,7 +229,7 @@ func TestVerifC24(t *testing.T) {
 	var allOps, allImpl [][]string
 
 	// ---- A ---------------------------------------------------------------------
-	nA := vfScale(400, 8000)
+	nA := vfScale(400, 40000)
 	for i := 0; i < nA; i++ {
 		maxSize := r.Intn(7)
 		batchSize := r.Intn(7) - 1
@@ -331,6 +331,10 @@ func TestVerifC24(t *testing.T) {
 		out = append(out, c24Ints(closed))
 		allOps = append(allOps, ops)
 		allImpl = append(allImpl, out)
+		if len(allOps) >= 3000 { // compare in chunks (memory, thorough tier)
+			rep.vfCompareSegments("queue", allOps, allImpl)
+			allOps, allImpl = nil, nil
+		}
 		rep.Case("A:"+em, len(*got) >= 2 && flushOps > 0)
 		rep.Count(fmt.Sprintf("A:batchSize=%d", batchSize))
 		rep.Count(fmt.Sprintf("A:cap=%d", maxSize))
@@ -341,7 +345,7 @@ func TestVerifC24(t *testing.T) {
 	}
 
 	// ---- B ---------------------------------------------------------------------
-	nB := vfScale(60, 1500)
+	nB := vfScale(60, 5000)
 	for i := 0; i < nB; i++ {
 		maxSize := 1 + r.Intn(8)
 		batchSize := 1 + r.Intn(6)
@@ -489,6 +493,10 @@ func TestVerifC24(t *testing.T) {
 			out = append(out, c24Emitted(base, writes, *got, groups))
 			allOps = append(allOps, ops)
 			allImpl = append(allImpl, out)
+			if len(allOps) >= 1000 {
+				rep.vfCompareSegments("queue", allOps, allImpl)
+				allOps, allImpl = nil, nil
+			}
 		}
 		sizes := map[int]bool{}
 		var shape []string
